@@ -443,15 +443,33 @@ def rule_g(ctx, out):
             out.bad("block-rendering-raises", f"rendering the block {shape} raises {e.what}", where(bcls.methods["to_plain"]))
         except Unsupported as e:
             raise AnalysisError(f"AsmBlock.to_plain cannot be evaluated abstractly: {e}")
-    if n < 5:
-        raise AnalysisError(f"only {n} block renderings evaluated")
+    # every item that carries an operand shows it: the plain text is read back token by token, and an item rendered without its operand
+    # swallows the next opcode as its operand (ASSIGNIMMUTABLE <hash> POP ... reads back as ASSIGNIMMUTABLE POP)
+    for d, v in (("ASSIGNIMMUTABLE", "ab12"), ("PUSHIMMUTABLE", "ab12"), ("PUSH [tag]", "7"), ("PUSH #[$]", "1"), ("PUSH [$]", "1"), ("PUSHLIB", "2"),
+                 ("PUSH data", "A1B2"), ("tag", "3"), ("PUSH", "80")):
+        try:
+            it = make(-1, -1, -1, d, v)
+            got = mi.call(icls.methods["to_plain"], it)
+        except Raised as e:
+            out.bad("item-rendering-raises", f"rendering the item {d} {v} raises {e.what}", where(icls.methods["to_plain"]))
+            continue
+        except Unsupported as e:
+            raise AnalysisError(f"AsmBytecode.to_plain cannot be evaluated abstractly on {d} {v}: {e}")
+        n += 1
+        if isinstance(got, str) and got.split()[:len(d.split())] == d.split() and got.split()[-1] == v and len(got.split()) == len(d.split()) + 1:
+            out.ok({"item": f"{d} {v}", "rendering": got})
+        else:
+            out.bad(f"item-rendering-drops-operand:{d.replace(' ', '')}", f"AsmBytecode.to_plain renders the item `{d} {v}` as `{got}`: the operand is not in the text, "
+                    f"and the reader takes the next token for it", where(icls.methods["to_plain"]))
+    if n < 14:
+        raise AnalysisError(f"only {n} block / item renderings evaluated")
 
 
 RULES = [
     ("C15.e", "plain-text constants keep their value in every spelling", 20, rule_e),
     ("C15.d", "per-section containers of the serialiser are fresh", 2, rule_d),
     ("C15.a", "key agreement between parser and serialiser at every level", 25, rule_a),
-    ("C15.g", "the plain rendering of a block keeps every instruction but the tags", 5, rule_g),
+    ("C15.g", "the plain rendering of a block keeps every instruction but the tags; every item shows its operand", 14, rule_g),
     ("C15.f", "contract assembly round-trips whatever optional parts it has (by evaluation)", 32, rule_f),
     ("C15.b", "item name/value change only through the PUSH0 spelling", 5, rule_b),
     ("C15.c", "PUSHLIB renumbering round-trips through real_value", 3, rule_c),
